@@ -23,6 +23,7 @@ extern "C" {
 #include <qb/qbipcs.h>
 #include <qb/qbipc_common.h>
 #include "ipc_int.h"
+#include "ringbuffer_int.h"
 }
 
 using namespace simk;
@@ -118,7 +119,8 @@ struct Conn {
 	bool server_gone = false;
 	int fc = 0; uint64_t fc_changes = 0;
 	bool fc_changing = false;
-	bool server_dropping = false;       // the application has asked the library to disconnect this connection
+	bool server_dropping = false;
+	bool in_msg = false;                // msg_process for this connection is running (its request is not reclaimed yet)       // the application has asked the library to disconnect this connection
 	int64_t defer_since_poll = -1;      // server loop iteration at which "events unread, descriptor not readable, notifications owed" was first seen (-1: not in that state)     // the server is inside qb_ipcs_request_rate_limit(): either level may be in force
 	unsigned auth_uid = 0, auth_gid = 0, auth_mode = 0600;
 	std::string dir;                        // /dev/shm/qb-...-XXXXXX
@@ -437,6 +439,8 @@ static int32_t cb_msg(qb_ipcs_connection_t *sc, void *data, size_t size)
 		}
 	}
 	c->n_req_delivered++; count(p_req_delivered); G.n_msgs_ok++;
+	c->in_msg = true;
+	struct InMsg { Conn *c; ~InMsg() { c->in_msg = false; } } in_msg_guard = { c };
 	int ret = 0;
 	if (m.reply_len >= RES_HDR) server_send(*c, 1, (uint32_t)m.reply_len, (m.flags & DF_SENDV_REPLY) != 0);
 	for (int k = 0; k < m.nevents && k < 16 && !failed(); k++) server_send(*c, 2, (uint32_t)std::max(RES_HDR, m.evlen), false);
@@ -796,6 +800,16 @@ static void client_send(ClientSt &k, const Op &op, int mode)
 	size_t rcap = (size_t)c.max_msg + 64;
 	uint8_t *rbuf = NULL;
 	int fc_before = c.fc_changing ? 0 : c.fc; uint64_t fc_ch_before = c.fc_changes;
+	// nothing of this client's is queued or being processed and no flow control: there is no reason to refuse a send
+	// (the request ring itself must be empty too: the server reclaims a request only after msg_process has returned)
+	bool ring_empty = false;
+	if (G.transport == 0 && c.sc && !c.destroyed) {
+		struct qb_ipcs_connection *q = (struct qb_ipcs_connection *)c.sc;
+		struct qb_ringbuffer_s *rb = q->request.u.shm.rb;
+		ring_empty = rb && rb->shared_hdr && rb->shared_hdr->read_pt == rb->shared_hdr->write_pt;
+	}
+	bool idle_before = ring_empty && c.req.empty() && !c.in_msg && c.fc == 0 && !c.fc_changing && !k.saw_disconnect && !c.server_gone && !c.server_dropping && !G.server_dead && !G.svc_destroyed;
+	uint64_t ndeliv_before = c.n_req_delivered;
 	// "later calls fail immediately" is promised for a server that has died: the disconnect must have been reported AND the
 	// server must already have been dead when this call started (a live server that is half-way through dropping the
 	// connection can still take the request)
@@ -830,6 +844,9 @@ static void client_send(ClientSt &k, const Op &op, int mode)
 		else if (waited > 50 * 1000000LL)
 			VIOL(3, "late-failure-after-disconnect", "qb_ipcc_sendv_recv", "client %d: a call made after the disconnect had been reported waited %lld ms before failing", k.idx, (long long)(waited / 1000000));
 	}
+	if (which == 2 && r == -EAGAIN && mode != 2 && idle_before && m.len <= c.max_msg && c.fc_changes == fc_ch_before && !c.fc_changing && c.fc == 0 &&
+	    c.n_req_delivered == ndeliv_before && !c.server_gone && !c.server_dropping && !G.server_dead && !G.svc_destroyed && G.spec->plan.get("rate_short", 0) == 0)
+		VIOL(2, "send-refused-without-reason", mode == 0 ? "qb_ipcc_send" : "qb_ipcc_sendv", "client %d: send of %u bytes returned -EAGAIN although none of its requests is queued or being processed and flow control is off", k.idx, m.len);
 	// flow control that was on (at a level this client honours) for the whole call must have refused the send
 	if (fc_before > 0 && (uint32_t)fc_before <= k.fcmax && c.fc_changes == fc_ch_before && m.len <= c.max_msg &&
 	    ((mode != 2 && r == (ssize_t)m.len) || (mode == 2 && (r >= 0 || c.fl_req_taken))))
